@@ -101,6 +101,7 @@ namespace sqf::parser::sqf
             {
                 if ((char)std::tolower(*it) != against[i]) { return 0; }
             }
+            if ((size_t)(it - start) < len) { return 0; }
             return it - start;
         }
         size_t len_ident_match(iterator start, const char* against)
@@ -111,6 +112,7 @@ namespace sqf::parser::sqf
             {
                 if ((char)std::tolower(*it) != against[i]) { return 0; }
             }
+            if ((size_t)(it - start) < len) { return 0; }
             if (it < m_end && ((char)std::tolower(*it) >= 'a' && (char)std::tolower(*it) <= 'z'))
             {
                 return 0;
